@@ -673,7 +673,7 @@ theorem neg_merge (s : Shape) : ∀ a a' : MArr K, a.shape = s → ALow a a' →
 /-- **ni_lift** for the unary operations of the catalogue, errors included -/
 theorem evalU_congr (hexp : P.expOv P.zero = false) (hsq : sqrtBad P P.one = false)
     (hlg : logBad P P.one = false) (harc : arcBad P P.zero = false) (hrc : recipBad P P.one = false)
-    (op : UOp) {x y : Obj K} (h : LowEq x y) : RLow (evalU P op x) (evalU P op y) := by
+    (op : UOp) (hop : op ≠ .pickle) {x y : Obj K} (h : LowEq x y) : RLow (evalU P op x) (evalU P op y) := by
   have fastObj_congr : ∀ (bad : K → Bool) (f : K → K) (safe : K) (g : Cell K → Cell K),
       bad safe = false → (∀ c, c.m = true → (g c).m = true) →
       RLow (fastObj P bad f safe g x) (fastObj P bad f safe g y) := by
@@ -750,11 +750,154 @@ theorem evalU_congr (hexp : P.expOv P.zero = false) (hsq : sqrtBad P P.one = fal
   case arcsinNc => exact fastPlain _ _ _ harc
   case arccosNc => exact fastPlain _ _ _ harc
   case wod => exact ⟨h.1, trivial⟩
-  case pickle =>
-    refine ⟨by show ALow (pickleArr P x.main) (pickleArr P y.main); rw [ni_pickle P h.1]; exact ALow.refl _, ?_⟩
-    refine DLow_map ?_ h.2
+  case pickle => exact absurd rfl hop
+  case signNz =>
+    exact ⟨ni_lift_unary (f := signNzCode P) (fun c hc => by simp [signNzCode, hc]) h.1, trivial⟩
+  case frac => exact ⟨ni_lift_unary (pass_strict _) h.1, h.2⟩
+  case pow0 =>
+    refine ⟨ni_lift_unary (f := fun c => (⟨P.one, c.m⟩ : Cell K)) (fun c hc => hc) h.1, DLow_map ?_ h.2⟩
     intro a b hsd hd
-    exact ⟨hsd, by rw [ni_pickle P hd]; exact ALow.refl _⟩
+    exact ⟨hsd, ni_lift_unary (f := fun d => (⟨P.zero, d.m⟩ : Cell K)) (fun c hc => hc) hd⟩
+  case pow2 => exact unaryObj_congr P (f := fun c => ⟨P.mul c.v c.v, c.m⟩) (g := fun c => ⟨P.mul c.v (P.ofNat 2), c.m⟩) (fun c hc => hc) (fun c hc => hc) h
+  case pow3 => exact unaryObj_congr P (f := fun c => ⟨P.mul c.v (P.mul c.v c.v), c.m⟩) (g := fun c => ⟨P.mul (P.ofNat 3) (P.mul c.v c.v), c.m⟩) (fun c hc => hc) (fun c hc => hc) h
+  case pow4 => exact unaryObj_congr P (f := fun c => ⟨P.mul (P.mul c.v c.v) (P.mul c.v c.v), c.m⟩) (g := fun c => ⟨P.mul (P.mul (P.ofNat 4) (P.mul c.v c.v)) c.v, c.m⟩) (fun c hc => hc) (fun c hc => hc) h
+
+/-! ### phase 3: pickling, powers, mod / floordiv / arctan2, mask_where, clip -/
+
+/-- pickling is a congruence for objects WITHOUT a derivative (with one it is not: see
+    `ni_pickle_deriv_counterexample`) -/
+theorem pickleObj_congr_noD {x y : Obj K} (h : LowEq x y) (hx : x.d = none) :
+    LowEq (pickleObjCode P x) (pickleObjCode P y) := by
+  have hy : y.d = none := by
+    have h2 := h.2; rw [hx] at h2
+    cases hyd : y.d with
+    | none => rfl
+    | some _ => rw [hyd] at h2; exact False.elim h2
+  simp only [pickleObjCode, hx, hy, Option.map]
+  exact ⟨by rw [ni_pickle P h.1]; exact ALow.refl _, trivial⟩
+
+theorem pow_strict (k : K) (c : Cell K) (h : c.m = true) : (powCode P k c).m = true := by
+  simp [powCode, h]
+
+theorem powObj_congr (k km1 : K) {x y : Obj K} (h : LowEq x y) : LowEq (powObj P k km1 x) (powObj P k km1 y) :=
+  unaryObj_congr P (g := fun c => let q := powCode P km1 c; ⟨P.mul k q.v, q.m⟩) (pow_strict P k)
+    (fun c hc => pow_strict P km1 c hc) h
+
+theorem fdiv_strict (a b : Cell K) (h : a.m = true ∨ b.m = true) : (fdivCode P a b).m = true := by
+  cases h with
+  | inl h => exact bin_strict _ _ _ (Or.inl h)
+  | inr h => exact bin_strict _ _ _ (Or.inr (nonZero_strict P b h))
+theorem fmod_strict (a b : Cell K) (h : a.m = true ∨ b.m = true) : (fmodCode P a b).m = true := by
+  cases h with
+  | inl h => exact bin_strict _ _ _ (Or.inl h)
+  | inr h => exact bin_strict _ _ _ (Or.inr (nonZero_strict P b h))
+
+theorem floordivObj_congr {x x' y y' : Obj K} (hx : LowEq x x') (hy : LowEq y y') :
+    RLow (floordivObj P x y) (floordivObj P x' y') := by
+  unfold floordivObj
+  rw [← hx.1.1, ← hy.1.1]
+  cases hb : bcast x.main.shape y.main.shape with
+  | none => rfl
+  | some out => exact ⟨ni_lift_binary (fdiv_strict P) hx.1 hy.1 hb, trivial⟩
+
+theorem modObj_congr {x x' y y' : Obj K} (hx : LowEq x x') (hy : LowEq y y') :
+    RLow (modObj P x y) (modObj P x' y') := by
+  unfold modObj
+  rw [← hx.1.1, ← hy.1.1]
+  cases hb : bcast x.main.shape y.main.shape with
+  | none => rfl
+  | some out =>
+    refine ⟨ni_lift_binary (fmod_strict P) hx.1 hy.1 hb, DLow_map ?_ hx.2⟩
+    intro a b hsd hd
+    exact ⟨rfl, ALow_bto hd (by rw [hsd]; exact fun _ hi => bidx_valid hb hi)⟩
+
+theorem arctan2Obj_congr {y y' x x' : Obj K} (hy : LowEq y y') (hx : LowEq x x') :
+    RLow (arctan2Obj P y x) (arctan2Obj P y' x') := by
+  unfold arctan2Obj
+  rw [← hy.1.1, ← hx.1.1]
+  cases hb : bcast y.main.shape x.main.shape with
+  | none => rfl
+  | some out =>
+    have bY := btoObj_congr hy (out := out) fun _ hi => bidx_valid hb hi
+    have bx := btoObj_congr hx (out := out) fun _ hi => bidx_valid_right hb hi
+    have hsq : ∀ {a b : MArr K}, ALow a b →
+        ALow (a.map fun c => (⟨P.mul c.v c.v, c.m⟩ : Cell K)) (b.map fun c => (⟨P.mul c.v c.v, c.m⟩ : Cell K)) :=
+      fun hab => ni_lift_unary (f := fun c => (⟨P.mul c.v c.v, c.m⟩ : Cell K)) (fun c hc => hc) hab
+    have hdinv := ni_lift_unary (recip_strict P) (zipbin_congr P.add rfl (hsq bx.1) (hsq bY.1))
+    refine ⟨zipbin_congr _ rfl bY.1 bx.1, mergeD_congr (s := out) (zipbin_merge _ _) (neg_merge P _)
+      (DLow_map ?_ bY.2) (DLow_map ?_ bx.2)⟩
+    · intro a b hsd hd
+      exact ⟨rfl, zipbin_congr _ hsd.symm (zipbin_congr _ rfl bx.1 hdinv) hd⟩
+    · intro a b hsd hd
+      exact ⟨rfl, zipbin_congr _ hsd.symm (zipbin_congr _ rfl bY.1 hdinv) hd⟩
+
+theorem mwSel_congr (k : CmpKind) (lim : K) (remask : Bool) {c c' : Cell K} (h : CLow c c') (hm : c.m = false) :
+    mwSel P k lim remask c = mwSel P k lim remask c' := by
+  rw [h.eq_of_unmasked hm]
+
+/-- the value/mask part of mask_where_xx keeps masked elements masked -/
+theorem mwMain_strict (k : CmpKind) (lim : K) (rep : Option K) (remask : Bool) (c : Cell K) (h : c.m = true) :
+    ((fun c => if mwSel P k lim remask c then (⟨rep.getD c.v, remask⟩ : Cell K) else c) c).m = true := by
+  cases remask <;> simp [mwSel, h]
+  split <;> simp_all
+
+/-- **mask_where_xx with remask=False** is a congruence for ALL objects (derivatives included) -/
+theorem mwObj_congr_false (k : CmpKind) (lim : K) (rep : Option K) {x y : Obj K} (h : LowEq x y) :
+    LowEq (mwObj P k lim rep false x) (mwObj P k lim rep false y) := by
+  cases rep with
+  | none => exact h
+  | some r =>
+    simp only [mwObj]
+    refine ⟨ni_lift_unary (mwMain_strict P k lim (some r) false) h.1, DLow_map ?_ h.2⟩
+    intro a b hsd hd
+    refine ⟨hsd.trans rfl |>.symm ▸ rfl, ?_⟩
+    refine ⟨h.1.1, fun i hi => ?_⟩
+    show CLow (if mwSel P k lim false (x.main.get i) then _ else a.get i)
+              (if mwSel P k lim false (y.main.get i) then _ else b.get i)
+    have hc := h.1.2 i hi
+    have hdi := hd.2 i (by rw [hsd]; exact hi)
+    cases hm : (x.main.get i).m with
+    | true =>
+      have hm' : (y.main.get i).m = true := by rw [← hc.1, hm]
+      simp [mwSel, hm, hm']; exact hdi
+    | false =>
+      rw [← mwSel_congr P k lim false hc hm]
+      split
+      · exact CLow.refl _
+      · exact hdi
+
+/-- **mask_where_xx, any remask**, on objects WITHOUT a derivative -/
+theorem mwObj_congr_noD (k : CmpKind) (lim : K) (rep : Option K) (remask : Bool) {x y : Obj K} (h : LowEq x y)
+    (hx : x.d = none) : LowEq (mwObj P k lim rep remask x) (mwObj P k lim rep remask y) := by
+  have hy : y.d = none := by
+    have h2 := h.2; rw [hx] at h2
+    cases hyd : y.d with
+    | none => rfl
+    | some _ => rw [hyd] at h2; exact False.elim h2
+  cases rep <;> cases remask <;> simp only [mwObj, hx, hy, Option.map] <;>
+    first | exact h | exact ⟨ni_lift_unary (mwMain_strict P k lim _ _) h.1, trivial⟩
+
+theorem clipMain_strict (lo hi : K) (remask : Bool) (c : Cell K) (h : c.m = true) :
+    ((fun (c : Cell K) => (⟨(if P.lt c.v lo then lo else if P.lt hi c.v then hi else c.v),
+        c.m || (remask && (P.lt c.v lo || P.lt hi c.v))⟩ : Cell K)) c).m = true := by
+  simp [h]
+
+/-- **clip(remask=True)** is a congruence for all objects (the derivatives are passed through) -/
+theorem clipObj_congr_true (lo hi : K) {x y : Obj K} (h : LowEq x y) :
+    LowEq (clipObj P lo hi true x) (clipObj P lo hi true y) := by
+  simp only [clipObj]
+  exact ⟨ni_lift_unary (clipMain_strict P lo hi true) h.1, h.2⟩
+
+/-- **clip, any remask**, on objects WITHOUT a derivative -/
+theorem clipObj_congr_noD (lo hi : K) (remask : Bool) {x y : Obj K} (h : LowEq x y) (hx : x.d = none) :
+    LowEq (clipObj P lo hi remask x) (clipObj P lo hi remask y) := by
+  have hy : y.d = none := by
+    have h2 := h.2; rw [hx] at h2
+    cases hyd : y.d with
+    | none => rfl
+    | some _ => rw [hyd] at h2; exact False.elim h2
+  cases remask <;> simp only [clipObj, hx, hy, Option.map] <;>
+    exact ⟨ni_lift_unary (clipMain_strict P lo hi _) h.1, by simp [DLow]⟩
 
 theorem addObj_congr {x x' y y' : Obj K} (hx : LowEq x x') (hy : LowEq y y') :
     RLow (addObj P x y) (addObj P x' y') := by
@@ -850,6 +993,9 @@ theorem evalB_congr (op : BOp) {x x' y y' : Obj K} (hx : LowEq x x') (hy : LowEq
   · exact mulObj_congr P hx hy
   · exact divObj_congr P hx hy
   · exact stackObj_congr P hx hy
+  · exact modObj_congr P hx hy
+  · exact floordivObj_congr P hx hy
+  · exact arctan2Obj_congr P hx hy
 
 theorem evalR_congr (op : ROp) (axes : List Nat) {x y : Obj K} (h : LowEq x y) :
     LowEq (evalR P op axes x) (evalR P op axes y) := by
